@@ -337,14 +337,15 @@ theorem cli_exit_run (dbg : Bool) (W : World) (hctx : W.hasCtx = false) (file : 
     GENERATED `Package::get_function` / look-up key: on a package whose table holds its items
     under distinct keys, the name `a.b.f` yields the function `f` of the module `a.b` — its own
     table entry — whatever the modules are called (a submodule may be called `pkg`) … -/
-theorem get_function_resolves (mods : List Mod) (module : Module)
-    (hperm : module.functions.Perm (packageTable test_fn_name_mir test_sig_mir mods))
+theorem get_function_resolves (mods : List Mod) (glue : Table) (module : Module)
+    (hperm : module.functions.Perm (packageTable test_fn_name_mir test_sig_mir mods ++ glue))
     (hnodup : (Table.keys module.functions).Nodup)
     (m : Mod) (hm : m ∈ mods) (f : Name) (info : FnInfo) (hd : Decl.fn f info ∈ m.decls) :
     Package_get_function ⟨module⟩ info.sig (dotJoin (m.path ++ [f])) = .Ok ⟨fullName m.path f, info⟩ := by
   rw [Package_get_function_spec]
   have hmem : (fullName m.path f, info) ∈ module.functions := by
     apply hperm.symm.subset
+    apply List.mem_append_left
     simp only [packageTable, List.mem_flatMap, moduleTable, List.mem_map]
     exact ⟨m, hm, .fn f info, hd, rfl⟩
   have hfind := find_of_mem_nodup module.functions _ info hnodup hmem
@@ -354,22 +355,26 @@ theorem get_function_resolves (mods : List Mod) (module : Module)
 
 /-- … and a name that is the path of no item is missing: no other spelling (the qualified form
     `pkg.f` of the root's `f`, a name with a segment dropped) reaches a function. -/
-theorem get_function_missing (mods : List Mod) (module : Module)
-    (hperm : module.functions.Perm (packageTable test_fn_name_mir test_sig_mir mods))
+theorem get_function_missing (mods : List Mod) (glue : Table) (module : Module)
+    (hperm : module.functions.Perm (packageTable test_fn_name_mir test_sig_mir mods ++ glue))
     (name : Name) (want : Sig)
-    (hno : ∀ m ∈ mods, ∀ d ∈ m.decls, dotJoin (m.path ++ [d.key test_fn_name_mir]) ≠ name) :
+    (hno : ∀ m ∈ mods, ∀ d ∈ m.decls, dotJoin (m.path ++ [d.key test_fn_name_mir]) ≠ name)
+    (hng : pkgDot ++ name ∉ Table.keys glue) :
     Package_get_function ⟨module⟩ want name = .Err .doesNotExist := by
   rw [Package_get_function_spec]
   have hnot : pkgDot ++ name ∉ Table.keys module.functions := by
     intro hk
-    have hk' : pkgDot ++ name ∈ Table.keys (packageTable test_fn_name_mir test_sig_mir mods) :=
+    have hk' : pkgDot ++ name ∈ Table.keys (packageTable test_fn_name_mir test_sig_mir mods ++ glue) :=
       (hperm.map _).subset hk
-    simp only [Table.keys, packageTable, moduleTable, List.mem_map, List.mem_flatMap] at hk'
-    obtain ⟨⟨k, i⟩, ⟨m, hm, d, hd, he⟩, hkk⟩ := hk'
-    simp only [Prod.mk.injEq] at he
-    have : fullName m.path (d.key test_fn_name_mir) = pkgDot ++ name := he.1.trans hkk
-    rw [fullName_path] at this
-    exact hno m hm d hd (List.append_cancel_left this)
+    simp only [Table.keys, List.map_append, List.mem_append] at hk'
+    rcases hk' with hk' | hk'
+    · simp only [packageTable, moduleTable, List.mem_map, List.mem_flatMap] at hk'
+      obtain ⟨⟨k, i⟩, ⟨m, hm, d, hd, he⟩, hkk⟩ := hk'
+      simp only [Prod.mk.injEq] at he
+      have : fullName m.path (d.key test_fn_name_mir) = pkgDot ++ name := he.1.trans hkk
+      rw [fullName_path] at this
+      exact hno m hm d hd (List.append_cancel_left this)
+    · exact hng hk'
   have := find_none_of_not_mem module.functions _ hnot
   unfold get_function
   simp [this]
@@ -418,16 +423,20 @@ example :
     keys — so the order depends on the names only. -/
 theorem discovery_exact (X : XID) (F : XIDFacts X) (mods : List Mod)
     (hid : ∀ m ∈ mods, ∀ d ∈ m.decls, isIdent X d.name = true)
+    (glue : List Name) (hglue : ∀ k ∈ glue, '#' ∉ k)
     (module : Module)
-    (hkeys : (Table.keys module.functions).Perm (Table.keys (packageTable test_fn_name_mir test_sig_mir mods))) :
+    (hkeys : (Table.keys module.functions).Perm
+      (Table.keys (packageTable test_fn_name_mir test_sig_mir mods) ++ glue)) :
     (get_tests_keys module).Perm (testKeys test_fn_name_mir mods) ∧
     get_tests_keys module = RStr.sort (testKeys test_fn_name_mir mods) := by
+  have hg : glue.filter get_tests_filter = [] :=
+    List.filter_eq_nil_iff.mpr (fun k hk => by simp [filter_no_hash k (hglue k hk)])
   have hf : ((Table.keys module.functions).filter get_tests_filter).Perm (testKeys test_fn_name_mir mods) := by
-    rw [← package_filter F test_sig_mir mods hid]
-    exact hkeys.filter _
+    have := hkeys.filter get_tests_filter
+    rw [List.filter_append, package_filter F test_sig_mir mods hid, hg, List.append_nil] at this
+    exact this
   have heq : get_tests_keys module = RStr.sort ((Table.keys module.functions).filter get_tests_filter) := by
-    simp [get_tests_keys, RIter.into_iter, RIter.collect, RIter.map, RIter.filter, Id.run]
-    rfl
+    simp [get_tests_keys, RIter.into_iter, RIter.collect, RIter.map, RIter.filter, Id.run] <;> rfl
   rw [heq]
   exact ⟨(sort_perm _).trans hf, sort_eq_of_perm hf⟩
 
@@ -439,25 +448,32 @@ theorem discovery_exact (X : XID) (F : XIDFacts X) (mods : List Mod)
     blocks' keys, and each handle is the table's entry of its key (so it runs that block). -/
 theorem discovery_runs (X : XID) (F : XIDFacts X) (mods : List Mod)
     (hid : ∀ m ∈ mods, ∀ d ∈ m.decls, isIdent X d.name = true)
+    (glue : Table) (hglue : ∀ e ∈ glue, '#' ∉ e.1)
     (dbg : Bool) (module : Module)
-    (hperm : module.functions.Perm (packageTable test_fn_name_mir test_sig_mir mods))
+    (hperm : module.functions.Perm (packageTable test_fn_name_mir test_sig_mir mods ++ glue))
     (hnodup : (Table.keys module.functions).Nodup) :
     ∃ cs, get_tests dbg module = .ok cs ∧
       cs.map (fun c => c.func.key) = RStr.sort (testKeys test_fn_name_mir mods) ∧
       ∀ c ∈ cs, (c.func.key, c.func.info) ∈ packageTable test_fn_name_mir test_sig_mir mods ∧
         c.func.info.sig = testSig := by
-  have hkeys : (Table.keys module.functions).Perm (Table.keys (packageTable test_fn_name_mir test_sig_mir mods)) :=
-    hperm.map _
-  obtain ⟨hp, hs⟩ := discovery_exact X F mods hid module hkeys
+  have hkeys : (Table.keys module.functions).Perm
+      (Table.keys (packageTable test_fn_name_mir test_sig_mir mods) ++ Table.keys glue) := by
+    have := hperm.map (·.1)
+    simpa [Table.keys, List.map_append] using this
+  have hgk : ∀ k ∈ Table.keys glue, '#' ∉ k := by
+    intro k hk
+    obtain ⟨e, he, rfl⟩ := List.mem_map.mp hk
+    exact hglue e he
+  obtain ⟨hp, hs⟩ := discovery_exact X F mods hid (Table.keys glue) hgk module hkeys
   have hget : get_tests dbg module = List.mapM (get_tests_case dbg module) (get_tests_keys module) := by
-    simp [get_tests, get_tests_keys, RIter.into_iter, RIter.collect, RIter.map, RIter.filter, Id.run]
-    rfl
+    simp [get_tests, get_tests_keys, RIter.into_iter, RIter.collect, RIter.map, RIter.filter, Id.run] <;> rfl
   have hstep : ∀ k ∈ get_tests_keys module, ∃ c, get_tests_case dbg module k = .ok c ∧
       (c.func.key = k ∧ (c.func.key, c.func.info) ∈ packageTable test_fn_name_mir test_sig_mir mods ∧
         c.func.info.sig = testSig) := by
     intro k hk
     obtain ⟨v, rest, hmem, rfl⟩ := testKeys_mem_table test_fn_name_mir test_sig_mir mods k (hp.subset hk)
-    obtain ⟨c, hc, hf⟩ := get_tests_case_spec dbg module rest ⟨test_sig_mir, v⟩ hnodup (hperm.symm.subset hmem) rfl
+    obtain ⟨c, hc, hf⟩ := get_tests_case_spec dbg module rest ⟨test_sig_mir, v⟩ hnodup
+      (hperm.symm.subset (List.mem_append_left _ hmem)) rfl
     exact ⟨c, hc, by rw [hf]; exact ⟨rfl, hmem, rfl⟩⟩
   obtain ⟨cs, hcs, hall⟩ := mapM_ok_forall₂ _ _ (get_tests_keys module) hstep
   have hk := All2.keys hall
@@ -469,14 +485,15 @@ theorem discovery_runs (X : XID) (F : XIDFacts X) (mods : List Mod)
     declared verdict is accept. -/
 theorem run_package_truthful {ε} (X : XID) (F : XIDFacts X) (mods : List Mod)
     (hid : ∀ m ∈ mods, ∀ d ∈ m.decls, isIdent X d.name = true)
+    (glue : Table) (hglue : ∀ e ∈ glue, '#' ∉ e.1)
     (dbg : Bool) (module : Module)
-    (hperm : module.functions.Perm (packageTable test_fn_name_mir test_sig_mir mods))
+    (hperm : module.functions.Perm (packageTable test_fn_name_mir test_sig_mir mods ++ glue))
     (hnodup : (Table.keys module.functions).Nodup)
     (hsmall : (testKeys test_fn_name_mir mods).length < 2^31) (log : List Event) :
     ∃ r, run_tests (ε := ε) dbg module () log
         = (.ok r, log ++ (RStr.sort (testKeys test_fn_name_mir mods)).map Event.ranTest) ∧
       (r = .Ok () ↔ ∀ m ∈ mods, ∀ n v, Decl.test n v ∈ m.decls → v = .Accept ()) := by
-  obtain ⟨cs, hget, hkeys, hinfo⟩ := discovery_runs X F mods hid dbg module hperm hnodup
+  obtain ⟨cs, hget, hkeys, hinfo⟩ := discovery_runs X F mods hid glue hglue dbg module hperm hnodup
   have hlen : cs.length < 2^31 := by
     have := congrArg List.length hkeys
     rw [List.length_map, (sort_perm _).length_eq] at this
@@ -486,9 +503,11 @@ theorem run_package_truthful {ε} (X : XID) (F : XIDFacts X) (mods : List Mod)
     rw [← hkeys, List.map_map]; rfl
   refine ⟨r, by rw [hr, hev], hiff.trans ?_⟩
   have hnd : (Table.keys (packageTable test_fn_name_mir test_sig_mir mods)).Nodup := by
-    have hp : (Table.keys module.functions).Perm (Table.keys (packageTable test_fn_name_mir test_sig_mir mods)) :=
-      hperm.map _
-    exact hp.nodup_iff.mp hnodup
+    have hp : (Table.keys module.functions).Perm
+        (Table.keys (packageTable test_fn_name_mir test_sig_mir mods) ++ Table.keys glue) := by
+      have := hperm.map (·.1)
+      simpa [Table.keys, List.map_append] using this
+    exact (List.nodup_append.mp (hp.nodup_iff.mp hnodup)).1
   constructor
   · intro h m hm n v hd
     have hk := decl_mem_testKeys test_fn_name_mir mods m hm n v hd
